@@ -974,7 +974,8 @@ package leader
 //@   ghost hvfCalled Bool = false
 //@   on recv ticker set ran = false
 //@   on recv ticker set hvfCalled = false
-//@   on call validateToken as c assert C04.validation_time_boxed: origin(c.ctx, "ctx:derived") && CtxTimeout(c.ctx) == 2000000000 && CtxParent(c.ctx) == ctx
+//@   on call validateToken as c assert C04.validation_time_boxed: origin(c.ctx, "ctx:derived") && CtxTimeout(c.ctx) == max(e.cfg.HeartbeatInterval / 2, 2000000000) && CtxParent(c.ctx) == ctx
+//@   on call validateToken as c assert C07.validation_outlasts_a_fault_free_read: 2 * CtxTimeout(c.ctx) >= e.cfg.HeartbeatInterval - 1
 //@   on ret validateToken as r set lastErr = r.result1
 //@   on ret validateToken as r set lastValid = r.result0
 //@   on ret validateToken set ran = true
